@@ -643,8 +643,6 @@ def finish(prop, tier, t0, results, L, stats_all, viol_model, replay, extra_cov=
                 raise A.Infra("driver error %s in %s" % (reason, sid))
             continue
         p, r = reason.split(":", 1)
-        if p == "C09" and r == "fault":
-            p = prop
         if p != prop:
             # a violation of another listed property seen by this check's executions: reported as such, never swallowed
             others[reason] += 1
